@@ -20,7 +20,8 @@ RULE = ('corpus (defect witnesses, repo test inputs, the bundled JSONTestSuite f
         'of Unicode incl. controls, numbers over the full finite f64 range incl. -0, subnormals, integers beyond 2^53) '
         'serialised by serialize / serialize_pretty(0..8) on both sides, reparsed on both sides and compared with the '
         'original by f64 bit pattern. Compared: ok/err + error class, canonical structural dump (numbers as f64 bits, strings '
-        'as UTF-8, members in document order), serialised text byte for byte. non-trivial = input whose model outcome is not '
+        'as UTF-8, members in document order), serialised text byte for byte, bytes requested from the allocator by '
+        'Value::parse (counting GlobalAlloc) <= model meter <= 1024 * characters. non-trivial = input whose model outcome is not '
         'the plain InvalidToken rejection (accepted documents, other error classes, all serialiser cases)')
 ASSUMPTIONS = [
     'f64 oracle (Section variables fparse/fdisplay/ffinite, hypotheses of the serialiser and round-trip theorems): for finite x, '
@@ -769,6 +770,38 @@ def run_serial(ctx, values, indents, max_depth):
                    % len(textdiff))
 
 
+def check_alloc(ctx, acases):
+    """bytes really requested by Value::parse <= model meter <= 1024 * characters; returns the worst measured ratio."""
+    real = ctx.impl(['jalloc %s' % hx(t) for t in acases])
+    cost = ctx.model(['jcost %s' % hx(t) for t in acases])
+    ctx.evaluations += len(acases)
+    worst = 0.0
+    for t, r, c in zip(acases, real, cost):
+        case = {'kind': 'alloc', 'text': t, 'line': 'jalloc %s' % hx(t)}
+        ctx.count('alloc-checked')
+        try:
+            rt = int(r.split(' ')[1])
+            cm = int(c)
+        except (ValueError, IndexError):
+            report(ctx, case, 'impl=%s model=%s' % (r[:80], c[:80]), 'two numbers', cls='alloc-meter', failing_input=False,
+                   what='allocation measurement failed')
+            continue
+        if t:
+            worst = max(worst, rt / len(t.encode('utf-8')))
+        if cm > 1024 * len(t):
+            report(ctx, case, 'model meter=%d' % cm, '<= 1024 * %d characters' % len(t), cls='model-vs-oracle',
+                   failing_input=False, what='meter exceeds the proved bound')
+        if rt > 1024 * max(len(t.encode('utf-8')), 1) and t:
+            report(ctx, case, 'bytes requested=%d' % rt, '<= 1024 * %d input bytes' % len(t.encode('utf-8')), cls='alloc-bound',
+                   failing_input=True,
+                   what='Value::parse requested %d bytes from the allocator for the %d-byte input %r' % (rt, len(t.encode('utf-8')), t[:60]))
+        elif rt > cm:
+            report(ctx, case, 'bytes requested=%d' % rt, 'model meter=%d' % cm, cls='alloc-meter',
+                   failing_input=rt > 1024 * len(t.encode('utf-8')),
+                   what='Value::parse requested more bytes from the allocator than the model meter allows on %r' % t[:60])
+    return worst
+
+
 def run(ctx):
     sys.setrecursionlimit(20000)
     max_depth = read_max_depth()
@@ -778,6 +811,19 @@ def run(ctx):
             run_parse_batch(ctx, [(c['text'], c.get('stream', 'replay'), None, c.get('limit'))], max_depth)
         elif c.get('kind') == 'fdisp':
             run_serial(ctx, [('d', c['literal'])], lambda v: [None], max_depth)
+        elif c.get('kind') == 'alloc':
+            check_alloc(ctx, [c['text']])
+        elif c.get('kind') == 'scan':
+            o = ctx.model([c['line']])[0]
+            want = 'true' if py_scan(c['text']) else 'false'
+            if o != want:
+                report(ctx, c, 'model=' + o, 'python=' + want, cls='model-vs-oracle', failing_input=False,
+                       what='JsonSpec.no_lone_surrogate_escape disagrees with the independent implementation')
+        elif c.get('kind') == 'sizes':
+            sm, si = ctx.both(['jsizes'])
+            if sm[0] != si[0]:
+                report(ctx, c, 'impl=' + si[0], 'model=' + sm[0], cls='alloc-meter', failing_input=False,
+                       what='the element sizes assumed by the allocation meter differ from the build')
         elif c.get('kind') == 'ser':
             ind = c.get('indent')
             run_serial(ctx, [decode_value(c['value'])], lambda v: [ind], max_depth)
@@ -788,6 +834,7 @@ def run(ctx):
     corpus, nonutf8 = corpus_cases()
     ctx.count('testsuite-files-not-utf8-skipped', nonutf8)
     m, im = run_parse_batch(ctx, [(t, tag, None, None, e) for t, tag, e in corpus], max_depth)
+    corpus_alloc = [(t, tag, None, None) for t, tag, e in corpus]
     for (t, tag, e), a in list(zip(corpus, m))[:2]:
         ctx.sample({'stream': tag, 'text': t[:80], 'model': a[:80]})
 
@@ -825,6 +872,18 @@ def run(ctx):
                    'impl=' + b[:200], 'rejected or paired', cls='lone-surrogate', failing_input=False,
                    what='accepted a text with an unpaired surrogate escape (allowed by RFC, but the theorems say it is rejected)')
     ctx.sample({'stream': 'surrogates', 'text': sd[0][0], 'model': m[0][:80], 'impl': im[0][:80]})
+
+    # 3c. allocation: bytes really requested by Value::parse <= the model's meter <= 1024 * characters (json_parse_alloc_linear)
+    sizes_m, sizes_i = ctx.both(['jsizes'])
+    if sizes_m[0] != sizes_i[0]:
+        report(ctx, {'kind': 'sizes', 'line': 'jsizes'}, 'impl size_of Value, (String, Value) = ' + sizes_i[0],
+               'model VALUE_SIZE MEMBER_SIZE = ' + sizes_m[0], cls='alloc-meter', failing_input=False,
+               what='the element sizes assumed by the allocation meter differ from the build')
+    acases = [c[0] for c in corpus_alloc + sd + docs if c[3] is None][:(200000 if thorough else 25000)]
+    acases += ['[' * k for k in (1, 10, 255, 256, 257, 1000)] + ['[[],' * 200, '{"":' * 300, '"' + 'a' * 5000, '"' + '\\u00e9' * 500 + '"',
+                                                                 '[' + '{},' * 500 + '{}]', '[' + '"",' * 500 + '""]', ' ' * 3000 + '1']
+    worst = check_alloc(ctx, acases)
+    ctx.extra['alloc_worst_bytes_per_input_byte'] = round(worst, 1)
 
     # 4. random values through the serialisers and back
     vals = serial_values(ctx)
